@@ -156,11 +156,10 @@ def compare_record(ck, rec, mlines, out_text, chrom="CHR1"):
                         continue
                     if len(d) != m or any(x is None or not close_text3(x, q) for x, q in zip(d, vals[s][1:])):
                         bad.append(("ds", {"pos": r.pos, "sample": s, "impl": d, "model": [str(q) for q in vals[s][1:]]}))
-                if any(x is None for x in vals):
-                    continue  # population total undefined: unconstrained
-                tot = [sum(vals[s][a] for s in range(len(vals))) for a in range(m + 1)]
-                if len(acp) != m + 1 or any(x is None or not close_text3(x, q) for x, q in zip(acp, tot)):
-                    bad.append(("acp", {"pos": r.pos, "impl": acp, "model": [str(q) for q in tot]}))
+                if all(x is not None for x in vals):  # else: population total undefined, unconstrained
+                    tot = [sum(vals[s][a] for s in range(len(vals))) for a in range(m + 1)]
+                    if len(acp) != m + 1 or any(x is None or not close_text3(x, q) for x, q in zip(acp, tot)):
+                        bad.append(("acp", {"pos": r.pos, "impl": acp, "model": [str(q) for q in tot]}))
             # DP / PQ: documented by the program's help text, not part of the stated property -> informational
             for s, smp in enumerate(r.samples):
                 wdp = str(l["dp"][s]) if l["dp"] else "."
